@@ -1046,6 +1046,15 @@ pub fn run(ctx: &Ctx) -> Report {
         }
     };
 
+    let known_mags: BTreeMap<String, Vec<String>> = std::fs::read_to_string(format!("{}/known_findings.json", ctx.verif))
+        .ok()
+        .and_then(|t| serde_json::from_str::<Value>(&t).ok())
+        .and_then(|v| v["findings"].as_array().cloned())
+        .unwrap_or_default()
+        .iter()
+        .filter(|e| e["property"] == "C19" && e["status"] == "known")
+        .filter_map(|e| Some((e["key"].as_str()?.to_string(), e["magnitudes"].as_array()?.iter().filter_map(|x| x.as_str().map(|s| s.to_string())).collect())))
+        .collect();
     if ctx.thorough {
         // every case, fully parallel; heavy (large-magnitude) cases first only affects scheduling
         let mut cases: Vec<(usize, usize)> = vec![];
@@ -1059,14 +1068,18 @@ pub fn run(ctx: &Ctx) -> Report {
             exec(c.0, c.1);
         });
     } else {
-        // quick: sites in parallel, magnitudes ascending inside a site; after a timeout the larger
-        // magnitudes of that site are not run (reported as skipped_after_timeout)
+        // quick: sites in parallel, magnitudes ascending inside a site; after a timeout the magnitudes listed in the
+        // site's known finding are not run again (reported as skipped_after_timeout)
         let idx: Vec<usize> = (0..sites.len()).collect();
         idx.par_iter().with_max_len(1).for_each(|si| {
             let n = lad(sites[*si].ladder).len();
             let mut timed_out = false;
+            let listed = known_mags.get(&format!("C19:{}:unbounded", sites[*si].name));
             for mi in 0..n {
-                if timed_out {
+                // after a time-out, the magnitudes the known finding of this site lists (they would burn the CPU budget
+                // again) are not run; every other magnitude still is — there the recorded tree answers at once
+                let label = lad(sites[*si].ladder)[mi].label();
+                if timed_out && listed.map(|v| v.contains(&label)).unwrap_or(true) {
                     results.lock().unwrap().insert((*si, mi), CaseResult { outcome: Outcome::Skipped, obs: None, expect: Value::Null, program_head: String::new(), files_total_bytes: 0, nfiles: 0, cpu_limit_s: 0 });
                     continue;
                 }
@@ -1096,15 +1109,6 @@ pub fn run(ctx: &Ctx) -> Report {
     let mut non_cycle_sites = 0usize;
     let mut near_limit: Vec<String> = vec![];
     let mut cpu_ge_1: Vec<String> = vec![];
-    let known_mags: BTreeMap<String, Vec<String>> = std::fs::read_to_string(format!("{}/known_findings.json", ctx.verif))
-        .ok()
-        .and_then(|t| serde_json::from_str::<Value>(&t).ok())
-        .and_then(|v| v["findings"].as_array().cloned())
-        .unwrap_or_default()
-        .iter()
-        .filter(|e| e["property"] == "C19" && e["status"] == "known")
-        .filter_map(|e| Some((e["key"].as_str()?.to_string(), e["magnitudes"].as_array()?.iter().filter_map(|x| x.as_str().map(|s| s.to_string())).collect())))
-        .collect();
     for (si, s) in sites.iter().enumerate() {
         let mags = lad(s.ladder);
         // smallest failing magnitude per kind for this site
